@@ -452,12 +452,17 @@ def c10(ctx):
     lifecycle(ctx, "C10")
     stateless(ctx, "Spl", {"SplUn", "SplBin", "SplLin", "SplNew"}, prop_view="C10")
     stateless(ctx, "Sup", {"SupBin", "SupNew", "GridNew"}, prop_view="C10")
+    # floating-point grids built from NaN, +/-Inf and -0.0: whatever comes to life is strictly increasing
+    stateless(ctx, "Fp", {"FpGridNew"}, variant="fp", build_as="fp_plain", prop_view="C10")
 
 
 def c14(ctx):
     lifecycle(ctx, "C14")
     stateless(ctx, "Spl", {"SplUn", "SplBin", "SplLin", "SplEval"}, prop_view="C14")
     stateless(ctx, "Ops", {"OpApply", "OpBF"}, prop_view="C14", case_filter=lambda c: c["tag"] in ("expr", "bf"))
+    # interpolation called with named (non-const) data: support, ordinates and boundary conditions stay as they were
+    stateless(ctx, "Interp", {"Interp"}, prop_view="C14")
+    interp_fp(ctx)
 
 
 def c08(ctx):
@@ -473,7 +478,12 @@ def c08(ctx):
 # ------------------------------------------------------------------ properties
 def c12(ctx):
     stateless(ctx, "Interp", {"Interp"})
-    # the bundled dense solver (Eigen) in float, double and long double: residuals of the same conditions at backward-error level
+    interp_fp(ctx)
+
+
+def interp_fp(ctx):
+    # the bundled dense solver (Eigen) in float, double and long double: residuals of the same conditions at backward-error
+    # level; the named operands (support, ordinates, boundary conditions) compared with untouched copies after the call
     def valid(c):
         n = c["x"]["e"] - c["x"]["s"]
         return n >= 2 and n == len(c["y"]) and all(1 <= b["d"] <= c["order"] for b in c["bcs"]) and solvable(c)
